@@ -301,8 +301,10 @@ fn alphabets(seed: u64) -> (Vec<El>, Vec<usize>, Vec<usize>) {
         let bits: Vec<bool> = (0..n).map(|i| (0b1011001110001u32 >> (12 - i)) & 1 == 1).collect();
         push(&mut full, El::RawLit(bits), n != 8, n != 8);
     }
-    for (k, n) in [(4usize, 5usize), (3, 8), (8, 8), (1, 13)] {
-        push(&mut full, El::RawSlice { k, n }, k == 4 || k == 3, k == 4 || k == 3);
+    // slices of a longer parent: unaligned start, aligned start with a partial last byte whose
+    // remaining bits (set in the parent) do not belong to the field, whole bytes
+    for (k, n) in [(4usize, 5usize), (3, 8), (8, 8), (1, 13), (8, 5), (0, 3), (16, 7)] {
+        push(&mut full, El::RawSlice { k, n }, k == 4 || k == 3 || n == 5 && k == 8 || k == 0, k == 4 || k == 3 || k == 0);
     }
     for s in ["", "a", "é"] {
         push(&mut full, El::Str(s), true, s == "é");
@@ -648,12 +650,48 @@ impl Worker {
             cnt.groupings += 1;
             let form = format!("emit/grouping {:0w$b}", g, w = ndata.saturating_sub(1).max(1));
             let fail = |key: String, what: String| Some(Failure { key, form: form.clone(), sources: vec![esrc.clone()], what });
+            // one emit per field is also run piecewise: one evaluation per emit, the host asserting
+            // interception (already on) before each piece — asserting it must not disturb what was captured
+            let piecewise = ndata >= 2 && g + 1 == ngroup;
             let r = match guarded(|| xs.eval(&esrc)) {
                 Err(p) => return fail("panic:emit".into(), format!("panic: {}", p)),
                 Ok(r) => r,
             };
             if let Err(e) = r {
                 return fail(format!("error:emit:{}", err_kind(&e)), format!("emitting failed: {}", err_kind(&e)));
+            }
+            if piecewise {
+                let mut ys = self.base.clone();
+                cnt.evals += 1;
+                let pieces: Vec<String> = esrc.split_inclusive("emit ").map(|p| p.to_string()).collect();
+                let mut sources = vec![];
+                for p in &pieces {
+                    sources.push("(host) xs.intercept_output(true)".to_string());
+                    sources.push(p.clone());
+                    let r = guarded(|| {
+                        ys.intercept_output(true)?;
+                        ys.eval(p)
+                    });
+                    if !matches!(r, Ok(Ok(()))) {
+                        return Some(Failure { key: "emit-piecewise:error".into(), form: "emit piecewise".into(), sources, what: format!("{:?}", r.map(|r| r.map_err(|e| err_kind(&e)))) });
+                    }
+                }
+                let same = ys.get_var_value("output").ok().and_then(cell_bits).map(|x| x.0) == xs.get_var_value("output").ok().and_then(cell_bits).map(|x| x.0)
+                    && ys.get_var_value("output-length").ok().and_then(cell_val) == xs.get_var_value("output-length").ok().and_then(cell_val);
+                if !same {
+                    return Some(Failure {
+                        key: "emit-piecewise:differs".into(),
+                        form: "emit piecewise".into(),
+                        sources,
+                        what: format!(
+                            "output |{}| output-length {:?}; the same emits in one evaluation give |{}| and {:?}",
+                            ys.get_var_value("output").ok().and_then(cell_bits).map(|x| bits_str(&x.0)).unwrap_or_default(),
+                            ys.get_var_value("output-length").ok().and_then(cell_val).as_ref().map(val_str),
+                            xs.get_var_value("output").ok().and_then(cell_bits).map(|x| bits_str(&x.0)).unwrap_or_default(),
+                            xs.get_var_value("output-length").ok().and_then(cell_val).as_ref().map(val_str)
+                        ),
+                    });
+                }
             }
             if xs.data_depth() != 0 {
                 return fail("emit-depth".into(), format!("{} values left on the stack by the emit program", xs.data_depth()));
